@@ -293,6 +293,21 @@ func init() {
 			in.sched().boundSet = true
 			return nil
 		},
+		"ThreadID": func(in *Interp, _ *ssa.Function, a []Value, c *frame) Value {
+			if in.cur == nil {
+				return bv(64, 0)
+			}
+			return bv(64, uint64(in.cur.id))
+		},
+		"Park": func(in *Interp, _ *ssa.Function, a []Value, c *frame) Value {
+			in.park()
+			return nil
+		},
+		// SyncMapPoints makes every sync.Map operation a scheduling point of this world.
+		"SyncMapPoints": func(in *Interp, _ *ssa.Function, a []Value, c *frame) Value {
+			in.sched().syncMapPts = true
+			return nil
+		},
 		"StartAll": func(in *Interp, _ *ssa.Function, a []Value, c *frame) Value {
 			in.schedPoint("start")
 			return nil
@@ -1328,6 +1343,9 @@ func (in *Interp) errorsAs(ev, tv Value, caller *frame) Value {
 }
 
 func syncMapOp(in *Interp, fn *ssa.Function, a []Value, caller *frame) Value {
+	if in.ss != nil && in.ss.syncMapPts {
+		in.schedPoint("sync.Map." + fn.Name())
+	}
 	key := a[0].(*Value)
 	m := in.syncMaps[key]
 	if m == nil {
